@@ -1,6 +1,7 @@
 package main
 
 import (
+	"os"
 	"fmt"
 	"go/token"
 	"go/types"
@@ -26,6 +27,10 @@ func runC08(w *World, r *Report) {
 	r.Rule("C08-R5", "level wiring", "Wait{Database,Collection,Partition}Ready: keys from the level's own key function, loads from the level's own table, getObjState(msgTs, load(createKey), load(dropKey), ok, ok); a successful probe records create time = recorded drop time + 1", 18)
 
 	r.Rule("C08-R6", "recorded times are only added", "the three info tables of ChannelWriter are accessed only through Load / LoadWithDefault / Store; drop keys are stored only by the drop operations and the constructor, create keys only after a successful probe: no recorded create or drop time is ever deleted or overwritten from elsewhere", 12)
+	r.Rule("C08-R7", "the start-up snapshot is loaded into the table of its own level", "in NewChannelWriter the entries of droppedObjs[database|collection|partition] are stored into dbInfos / collectionInfos / partitionInfos respectively", 3)
+	c08SnapshotTables(w, r)
+	// the re-check after a failed call looks the object up under the same SOURCE names as the check before it
+	r.importRules(runC09, "C08-", map[string]bool{"C09-R2": true})
 	c08R6(w, r)
 
 	states := w.enumConsts(pkgWriter, "InfoState")
@@ -592,5 +597,70 @@ func c08R6(w *World, r *Report) {
 				r.Fail("C08-R6", cons, ci.Pos(), fmt.Sprintf("%s.%s: recorded create/drop times must never be removed or rewritten (an operation of an older incarnation would no longer be recognised as stale)", tbl, m))
 			}
 		})
+	}
+}
+
+// c08SnapshotTables: C08-R7.
+func c08SnapshotTables(w *World, r *Report) {
+	fn := w.Func(pkgWriter, "", "NewChannelWriter")
+	if fn == nil {
+		r.Undecided("C08-R7", "NewChannelWriter", 0, "anchor not found")
+		return
+	}
+	want := map[string]string{"database": "dbInfos", "collection": "collectionInfos", "partition": "partitionInfos"}
+	n := 0
+	eachInstr(fn, func(in ssa.Instruction) {
+		c, ok := in.(*ssa.Call)
+		if !ok || callSym(c.Common()).name != "Store" {
+			return
+		}
+		rv := callRecv(c.Common())
+		if os.Getenv("VDEBUG") != "" {
+			fmt.Println("DEBUG store", rv != nil, func() string { if rv != nil { return w.accessPath(rv) }; return "" }())
+		}
+		if rv == nil {
+			return
+		}
+		table := ""
+		for _, t := range want {
+			if strings.HasSuffix(w.accessPath(rv), "."+t) {
+				table = t
+			}
+		}
+		if table == "" {
+			return
+		}
+		// the key ranges over droppedObjs[<level constant>]
+		level := ""
+		for _, x := range backSlice(callArgs(c.Common())[0], SliceOpts{MaxDepth: 8}) {
+			if os.Getenv("VDEBUG") != "" {
+				fmt.Printf("DEBUG slice %T %s\n", x, x.String())
+			}
+			if lk, isL := x.(*ssa.Lookup); isL {
+				for _, y := range backSlice(lk.Index, SliceOpts{MaxDepth: 3}) {
+					if s, isS := constString(y); isS && want[s] != "" {
+						level = s
+					}
+					if g, isG := y.(*ssa.Global); isG {
+						switch g.Name() {
+						case "DroppedDatabaseKey":
+							level = "database"
+						case "DroppedCollectionKey":
+							level = "collection"
+						case "DroppedPartitionKey":
+							level = "partition"
+						}
+					}
+				}
+			}
+		}
+		if level == "" {
+			return
+		}
+		n++
+		r.Check(want[level] == table, "C08-R7", "NewChannelWriter | droppedObjs["+level+"] -> "+want[level], c.Pos(), "stored into "+table, "the recorded drop times of the "+level+" level are loaded into "+table+": after a restart operations older than such a drop are no longer recognised as belonging to a dropped incarnation (and fail the task or hit a newer incarnation)")
+	})
+	if n < 3 {
+		r.Fail("C08-R7", "NewChannelWriter | snapshot load census", fn.Pos(), fmt.Sprintf("only %d of the 3 snapshot levels are loaded", n))
 	}
 }
